@@ -213,7 +213,7 @@ func runScenarioLogged(sc scen, rng *rand.Rand, lb *lockedBuf) []rec.Event {
 		ctx, cancel := context.WithTimeout(context.Background(), 4*time.Second)
 		pan = guard(func() { conn, err = tp.DialContext(ctx, sc.Target, sc.Via...) })
 		cancel()
-		wantOK := sim.ConnectReply == "ok"
+		wantOK := sim.ConnectReply == "ok" || sim.ConnectReply == "noise-then-ok"
 		res.add(rec.Event{"op": "Api", "call": "Dial", "ok": pan == "" && (err == nil) == wantOK, "panic": pan, "err": fmt.Sprint(err)})
 		if err != nil || pan != "" || conn == nil {
 			res.tnc(sim, sc, nil, false)
@@ -743,6 +743,11 @@ func Main(args []string) int {
 	mk(func(s *scen) { s.Kind = "inbound"; s.Frames = repeat(16, 3); s.Pace = "burst"; s.ReadWait = 300 })
 	mk(func(s *scen) { s.Kind = "inbound"; s.Frames = repeat(16, 10); s.Pace = "burst"; s.ReadWait = 300 })
 	mk(func(s *scen) { s.Kind = "inbound"; s.Frames = repeat(16, 40); s.Pace = "burst"; s.ReadWait = 400 })
+	// frames of other kinds about the connection while the dial waits for its answer; frames longer than any packet length
+	mk(func(s *scen) { s.Kind = "outbound"; s.Writes = []int{10, 20}; s.Reply = "noise-then-ok" })
+	mk(func(s *scen) { s.Kind = "inbound"; s.Frames = []int{10, 20}; s.Reply = "noise-then-ok" })
+	mk(func(s *scen) { s.Kind = "inbound"; s.Frames = []int{5000, 10, 4097, 4096}; s.ReadBuf = 8192 })
+	mk(func(s *scen) { s.Kind = "accept"; s.Frames = []int{70000, 3}; s.ReadBuf = 1000 })
 	// two connections on one port at the same time; a reply that arrives after its request gave up
 	mk(func(s *scen) { s.Kind = "twoconn"; s.Frames = []int{10, 20, 30, 40, 50}; s.Writes = []int{200} })
 	mk(func(s *scen) { s.Kind = "twoconn"; s.Port = 1; s.Frames = []int{255, 1, 255, 1}; s.Writes = []int{10, 20, 30} })
